@@ -91,6 +91,7 @@ error:
  */
 double _vnacal_calibration_get_fmin_bound(const vnacal_calibration_t *calp)
 {
+    assert(calp->cal_frequencies > 0);
     return (1.0 - VNACAL_F_EXTRAPOLATION) * calp->cal_frequency_vector[0];
 }
 
@@ -100,6 +101,7 @@ double _vnacal_calibration_get_fmin_bound(const vnacal_calibration_t *calp)
  */
 double _vnacal_calibration_get_fmax_bound(const vnacal_calibration_t *calp)
 {
+    assert(calp->cal_frequencies > 0);
     return (1.0 + VNACAL_F_EXTRAPOLATION) *
 	calp->cal_frequency_vector[calp->cal_frequencies - 1];
 }
